@@ -111,6 +111,17 @@ def r91_92(rep: Report, ctx: Ctx) -> None:
                     any(isinstance(c, ast.Call) and dotted(c.func) == "sorted"
                         and c.args and isinstance(c.args[0], ast.Name)
                         and c.args[0].id == nm for c in ast.walk(fi.node))
+        dedupe = [a for a in anc if isinstance(a, ast.Call)
+                  and (dotted(a.func) or "").split(".")[-1] in (
+                      "set", "frozenset", "fromkeys", "unique", "Counter")]
+        dedupe += [a for a in enclosing(fi.node, call, (ast.SetComp,
+                                                          ast.DictComp))]
+        if dedupe:
+            rep.ob("R9.2", "child hashes keep their multiplicity", False,
+                   fi=fi, node=dedupe[0],
+                   detail=f"'{unparse(dedupe[0])[:60]}' collapses equal "
+                          "child hashes: a parent with two identical "
+                          "sub-trees hashes like a parent with one")
         rep.ob("R9.2", "recursive results are sorted before joining", ok,
                fi=fi, node=call,
                detail=("sorted(...) encloses the recursion" if ok else
